@@ -50,6 +50,7 @@ class C19(vlib.Check):
             'source in both storage modes, the fault that makes its k-th allocation (k = 0, 1; 0..3 for operations with several allocations) throw; then every object is '
             'observed, read, assigned to and destroyed. Oracle = the property itself evaluated on the implementation\'s own '
             'observations (target previous-or-empty, others unchanged, all valid, nothing shared, no leak). '
+            'a sweep over the whole battery of const members and free functions (about 100 calls) with its k-th allocation failing, for every k until a run completes (a noexcept function that allocates would end the process; leaks are counted); failing operations (ill-formed data) under a fault schedule; '
             'non-trivial = a case whose faulted operation actually threw')
     modelled_not_verified = ('operator new/new[] replaced by counting / failing wrappers over malloc (the k-th allocation inside the '
                              'designated operation throws std::bad_alloc)', 'std::vector (split/tokenize) is an oracle: its blocks are faulted like any other allocation, the model stands for them by dummy temporaries',
@@ -96,6 +97,10 @@ class C19(vlib.Check):
                         p.ops.append('set,%d,%s' % (o, hx(rstr(rng, rng.choice([2, 20])))))
                     p.ops += ['reads,0', 'del,0', 'del,1']
                     yield 'str 4 %s failat=%d@%d' % (';'.join(p.ops), k, step)
+        # --- every const member / free function of the battery under a fault at its k-th allocation, for all k
+        for v in (b'', b'abc', rstr(rng, 15), rstr(rng, 16), rstr(rng, 40), rstr(rng, 300), 'h\u00e9llo \u20ac \U0001F600 end'.encode(),
+                  ('\u20ac' * 20).encode(), b' 12345 ', b'true', b'-1.5e10', b'a,b,,c;d e'):
+            yield 'str 4 new,0,%s;new,1,%s;readsweep,0;reads,0;set,0,%s;reads,1;del,0;del,1' % (hx(v), hx(rstr(rng, 20)), hx(rstr(rng, 20)))
         # --- operations that throw by themselves (ill-formed data) while an allocation of one of their temporaries is
         #     made to fail: bad_alloc instead of the operation's own exception, same guarantees
         #     (the last temporary stands for the block that holds the exception's message: std::runtime_error copies it)
@@ -240,6 +245,9 @@ class C19(vlib.Check):
         a = parse(impl)
         if a is None:
             return False
+        if 'failat=' not in case:
+            # no designated fault (the sweep over the const battery injects its faults itself): plain spec run
+            return kind == 'str' and C04.steps_ok(a, parse(spec), True)
         k, fstep, ops = self.fault_pos(case)
         if len(a) != len(ops) + 1 or a[-1] != ['leak=0']:
             return False
@@ -298,7 +306,7 @@ class C19(vlib.Check):
         return True
 
     def nontrivial(self, case, impl):
-        return 'r=bad_alloc' in impl
+        return 'r=bad_alloc' in impl or 'readsweep' in case
 
 
 CHECK = C19()
